@@ -131,6 +131,21 @@ def fmtOfNat : Nat → Option FM.Fmt
   | 4 => some .onlyLengths | 5 => some .leafLengthsAllNames | 6 => some .leafLengthsLeafNames
   | 7 => some .internalLengthsLeafNames | 8 => some .allLengthsLeafNames | _ => none
 
+/-- `Tree::to_formatted_newick`: root = first live parentless slot (`get_root`), then `to_newick_impl` + `;` -/
+def nwWriteRaw (f : FM.Fmt) (slots : List (Bool × NW.PNode NW.Label)) : Option (List Char) :=
+  let a : Array (NW.PNode NW.Label) := (slots.map (·.2)).toArray
+  let root := (List.range slots.length).find? (fun i =>
+    match slots[i]? with
+    | some (del, n) => !del && n.parent.isNone
+    | none => false)
+  match root with
+  | none => none
+  | some r => (NW.toNewickF (fun (l : NW.Label) => l) (a.size + 1) f a r).map (· ++ [';'])
+def nwWrite (f : FM.Fmt) (slots : List (Bool × NW.PNode NW.Label)) : String :=
+  match nwWriteRaw f slots with
+  | some t => "ok " ++ hexEnc (String.ofList t)
+  | none => "err"
+
 /-! ### state and dispatch -/
 structure DState where
   ar : AR.Arena := #[]
@@ -224,14 +239,17 @@ def dispatch (st : DState) (fs : List String) : DState × String :=
       | .panic => (st, "panic")
       | .cont _ => (st, "cont")
     | none => bad
-  | ["nw.write", f, root, ar] =>
-    match f.toNat?.bind fmtOfNat, root.toNat?, decPArena ar with
-    | some f, some r, some slots =>
-      let a : Array (NW.PNode NW.Label) := (slots.map (·.2)).toArray
-      match NW.toNewickF (fun (l : NW.Label) => l) (a.size + 1) f a r with
-      | some t => (st, "ok " ++ hexEnc (String.ofList (t ++ [';'])))
+  | ["nw.write", f, ar] =>
+    match f.toNat?.bind fmtOfNat, decPArena ar with
+    | some f, some slots => (st, nwWrite f slots)
+    | _, _ => bad
+  | ["nw.nexus", ar] =>
+    match decPArena ar with
+    | some slots =>
+      match nwWriteRaw .allFields slots with
+      | some t => (st, "ok " ++ hexEnc (String.ofList (NW.nexus slots t)))
       | none => (st, "err")
-    | _, _, _ => bad
+    | none => bad
   | _ => bad
 
 partial def loop (h : IO.FS.Stream) (out : IO.FS.Stream) (st : DState) : IO Unit := do
